@@ -4,36 +4,41 @@ from vlib import std, hbuild, coq, recipes, common
 
 PID = "C48"
 META = {
-    "text": "Theorems (Properties_C48.v, 10, closed under the global context) are about a Gallina transcription of "
-            "src/sbuf/SBuf.cc + MemBlob.cc: a heap of ref-counted blobs and SBuf objects (blob, off, len) with the real "
-            "copy-on-write / in-place-append / reserve / Locker logic, RefCount lock/unlock made explicit, pointer "
-            "arguments read at the time the code reads them, uint32 wrap where caller-supplied sizes enter. Proved for ALL "
-            "heaps satisfying the representation invariant (lock count = number of referring variables + other holders; "
-            "every variable inside its blob's used area; used <= capacity), any number of variables and any extra lock "
-            "holders: (1) cow keeps every variable's contents and every doubly-held blob byte-for-byte, whether it returns "
-            "or throws, and leaves the target sole owner at the blob's end with the requested room; (2) lowAppend (behind "
-            "append/push_back/assign(char*)) makes the target old++source for ANY source pointer incl. the target's own "
-            "storage under the Locker, leaves every other variable unchanged, never reads outside a live object, and a "
-            "throw changes no contents; (3) PARTIAL: per-operation and per-sequence refinement to independent byte lists "
-            "(C48_step/run_refines_values_partial) for assign (incl. self), append of external bytes, push_back, chop, "
-            "clear, reserveSpace, reserveCapacity and all const operations; append(SBuf)/own-pointer append, assign(ptr,n), "
-            "consume, substr, trim, setAt, toLower/Upper, reserve(req), rawAppend*, c_str are modelled and differentially "
-            "tested but not yet lifted to that theorem; (4) the full statement is REFUTED for the code as it is: four "
-            "witness theorems (chop/substr length wrap, rawAppendFinish(p,0) truncating a shared blob, rawAppendStart "
-            "beyond 2^32 not throwing, case-insensitive order of byte 0xff), all confirmed on the real code and recorded as "
-            "known findings. The model is tied to the code by a differential run of the extracted model against "
-            "SBuf.cc/MemBlob.cc compiled from the working tree under ASan+UBSan (return value, contents of every variable "
-            "and off/len/blob size/capacity/lock count of the target after every operation), and the code's answers are "
-            "checked against an independent Python bytes shadow (std::string semantics).",
-    "note": "Trusted: Coq kernel, extraction, gen/gen_sbuf.cc (SBuf::maxSize/npos and the <cctype> maps on char values), "
-            "harness/h_sbuf.cc (its memAllocBuf wrapper uses the size classes of src/mem/old_api.cc; the prototype store "
-            "is reset between sequences), ml/run_sbuf.ml glue. The allocator is a Section variable (contract n <= "
-            "alloc_cap n used only for the room guarantee). The hand-written SbufModel.v is validated against the code "
-            "only on the generated sequences (6k quick / 100k thorough). Print Assumptions: closed under the global "
-            "context for all 10 theorems.",
+    "text": "Theorems (Properties_C48.v, 8, closed under the global context) are about a Gallina transcription of "
+            "src/sbuf/SBuf.cc + MemBlob.cc at /repo HEAD (with the four C48 fixes): a heap of ref-counted blobs and SBuf "
+            "objects (blob, off, len) with the real copy-on-write / in-place-append / reserve / Locker logic, RefCount "
+            "lock/unlock explicit, pointer arguments read when the code reads them, uint32 arithmetic where caller-supplied "
+            "sizes enter. For ALL heaps satisfying the representation invariant (lock count = number of referring "
+            "variables + other holders; every variable inside its blob's used area; used <= capacity < 2^32), any number "
+            "of variables: (1) cow keeps every variable's contents and every doubly-held blob byte-for-byte whether it "
+            "returns or throws, and leaves the target sole owner at the blob's end with the requested room; (2) lowAppend "
+            "makes the target old++source for ANY source pointer incl. the target's own storage under the Locker, leaves "
+            "every other variable unchanged, never reads outside a live object; (3) setAt writes only the target; "
+            "(4) C48_step/run_refines_values_partial: every covered operation, and every sequence of them from any "
+            "invariant state, acts on the variables' contents exactly like the same operation on a list of independent "
+            "byte strings, keeps the invariant, never reads outside a live object, and a throw changes no contents (except "
+            "that assign(ptr,n) has cleared its target). Covered: assign(ptr,n), assign(SBuf) incl. self, append(SBuf) incl. "
+            "a.append(a), append(ptr,n), append/assign from a pointer into another or the same SBuf's storage, push_back, "
+            "consume, chop (all arguments), substr, trim incl. a.trim(a), setAt, clear, reserveSpace, reserveCapacity, "
+            "reserve(req), rawAppendStart+Finish, all const operations; (5) the regenerated ctype maps are the ASCII case "
+            "maps and case-insensitive comparison is byte-wise comparison of lower-cased values. Tie: differential run of "
+            "the extracted model against SBuf.cc/MemBlob.cc compiled from the working tree under ASan+UBSan (return value, "
+            "contents of every variable, off/len/blob size/capacity/lock count of the target after every operation), and "
+            "an independent Python bytes shadow (std::string semantics) evaluated on the code's answers.",
+    "note": "PARTIAL: not lifted into the step/run refinement theorem (modelled and differentially tested only): toLower, "
+            "toUpper (a loop of setAt; setAt itself is proved), c_str. Not stated: specification theorems for find/rfind/"
+            "findFirstOf/../compare/startsWith (differentially tested against the Python shadow), and the 'throws exactly "
+            "when over the size limit' theorem (the oracle checks it on the implementation; the step theorem proves that a "
+            "throw leaves all values unchanged). Trusted: Coq kernel, extraction, gen/gen_sbuf.cc (SBuf::maxSize/npos and the "
+            "<cctype> maps), harness/h_sbuf.cc (memAllocBuf wrapper with the size classes of src/mem/old_api.cc; prototype "
+            "store reset between sequences), ml/run_sbuf.ml glue. The allocator is a Section variable (contract n <= "
+            "capacity used only for cow's room guarantee). SbufModel.v is validated against the code only on the generated "
+            "sequences. Print Assumptions: closed under the global context for all 8 theorems. Former findings (chop length "
+            "wrap, rawAppendFinish(p,0), rawSpace limit, casecmp 0xff) are fixed in /repo (1f0fba6, 042a457, a2c4212, "
+            "9d80e16); their reproducers are in corpus/C48/regress.txt.",
     "technique": "Coq proof (representation invariant with ghost lock holders, per-method effect lemmas, refinement lifted to "
-                 "operation sequences by induction; vm_compute witnesses and 256-entry table sweep) + extracted-model "
-                 "differential correspondence under ASan + Python shadow oracle",
+                 "operation sequences by induction; 256-entry table sweep by vm_compute) + extracted-model differential "
+                 "correspondence under ASan + Python shadow oracle",
 }
 NPOS = 4294967295
 MAXSIZE = 0xfffffff
@@ -395,5 +400,5 @@ def run(res, tier):
                 "changed some variable's contents")
     std.run_standard(res, PID, tier, area="sbuf", build_impl=impl, gen_cases=gen_cases, oracle=oracle,
                      corr_name="SbufModel vs src/sbuf/SBuf.cc, src/sbuf/MemBlob.cc",
-                     gens=["sbuf"], n_quick=6000, n_thorough=100000, seed_salt=48, mutate=mutate,
+                     gens=["sbuf"], n_quick=4000, n_thorough=100000, seed_salt=48, mutate=mutate,
                      kind_fn=kind, nontrivial_fn=nontrivial)
